@@ -277,61 +277,11 @@ func runProperty(id, tier string, seed int, reg Registry, only string, workers i
 		} else {
 			cfg.Deadline = time.Now().Add(20 * time.Minute)
 		}
-		res := in.Explore(cfg)
-		rep := &harnessReport{H: h, Tier: tc, Res: res, Aborts: map[string]int{}, Reach: map[string]int{}, Funcs: map[string]bool{}}
-		// cross-solver pass (thorough tier): the whole harness is explored again with another
-		// solver; path counts and verdict counts must agree, a disagreement blocks the claim.
-		if (tier == "thorough" || os.Getenv("VERIF_CROSS") == "1") && !res.Truncated && res.Wall < 10*time.Minute {
-			alt := "z3-new"
-			if h.Solver == "z3-new" {
-				alt = "z3"
-				if h.Backend == "int" {
-					alt = "cvc5"
-				}
-			}
-			cfg2 := cfg
-			cfg2.Solver = alt
-			cfg2.KeepFuncs = false
-			cfg2.SampleModels = 0
-			cfg2.Deadline = time.Now().Add(3*res.Wall + 2*time.Minute)
-			res2 := in.Explore(cfg2)
-			count := func(r *symex.ExploreResult) (paths, unsat, trivial, sat, unknown int) {
-				for _, p := range r.Paths {
-					paths++
-					for _, a := range p.Asserts {
-						switch a.Verdict {
-						case "unsat":
-							unsat++
-						case "trivial":
-							trivial++
-						case "sat":
-							sat++
-						default:
-							unknown++
-						}
-					}
-				}
-				return
-			}
-			p1, u1, t1, s1, k1 := count(res)
-			p2, u2, t2, s2, k2 := count(res2)
-			rep.Cross = fmt.Sprintf("%s: paths=%d unsat=%d trivial=%d sat=%d unknown=%d in %.1fs (primary %s: paths=%d unsat=%d trivial=%d sat=%d unknown=%d)",
-				alt, p2, u2, t2, s2, k2, res2.Wall.Seconds(), cfg.Solver, p1, u1, t1, s1, k1)
-			aborted2 := 0
-			for _, p := range res2.Paths {
-				if strings.HasPrefix(p.Outcome, "abort:") {
-					aborted2++
-				}
-			}
-			switch {
-			case res2.Truncated || k2 > 0 || aborted2 > 0 || len(res2.SolverErrors) > 0:
-				rep.Cross += " [second solver incomplete: no cross-check for this harness]"
-			case p1 != p2 || u1+t1 != u2+t2 || s1 != s2:
-				inconclusive = append(inconclusive, fmt.Sprintf("%s: cross-solver disagreement: %s", h.Name, rep.Cross))
-			}
-		}
+		rep := &harnessReport{H: h, Tier: tc, Aborts: map[string]int{}, Reach: map[string]int{}, Funcs: map[string]bool{}}
 		seenViol := map[string]int{}
-		for _, p := range res.Paths {
+		var v1 verdictCounts
+		cfg.OnPath = func(p *symex.PathResult) {
+			v1.add(p)
 			rep.Paths++
 			switch {
 			case p.Outcome == "end":
@@ -406,6 +356,38 @@ func runProperty(id, tier string, seed int, reg Registry, only string, workers i
 					}
 					rep.minSampleScore = rep.Samples[len(rep.Samples)-1]["score"].(int)
 				}
+			}
+		}
+		res := in.Explore(cfg)
+		rep.Res = res
+		// cross-solver pass (thorough tier): the whole harness is explored again with another
+		// solver; path counts and verdict counts must agree, a disagreement blocks the claim.
+		if (tier == "thorough" || os.Getenv("VERIF_CROSS") == "1") && !res.Truncated && res.Wall < 10*time.Minute {
+			alt := "z3-new"
+			if h.Solver == "z3-new" {
+				alt = "z3"
+				if h.Backend == "int" {
+					alt = "cvc5"
+				}
+			}
+			cfg2 := cfg
+			cfg2.Solver = alt
+			cfg2.KeepFuncs = false
+			cfg2.SampleModels = 0
+			cfg2.Deadline = time.Now().Add(3*res.Wall + 2*time.Minute)
+			var v2 verdictCounts
+			cfg2.OnPath = func(p *symex.PathResult) { v2.add(p) }
+			res2 := in.Explore(cfg2)
+			p1, u1, t1, s1, k1 := v1.paths, v1.unsat, v1.trivial, v1.sat, v1.unknown
+			p2, u2, t2, s2, k2 := v2.paths, v2.unsat, v2.trivial, v2.sat, v2.unknown
+			rep.Cross = fmt.Sprintf("%s: paths=%d unsat=%d trivial=%d sat=%d unknown=%d in %.1fs (primary %s: paths=%d unsat=%d trivial=%d sat=%d unknown=%d)",
+				alt, p2, u2, t2, s2, k2, res2.Wall.Seconds(), cfg.Solver, p1, u1, t1, s1, k1)
+			aborted2 := v2.aborted
+			switch {
+			case res2.Truncated || k2 > 0 || aborted2 > 0 || len(res2.SolverErrors) > 0:
+				rep.Cross += " [second solver incomplete: no cross-check for this harness]"
+			case p1 != p2 || u1+t1 != u2+t2 || s1 != s2:
+				inconclusive = append(inconclusive, fmt.Sprintf("%s: cross-solver disagreement: %s", h.Name, rep.Cross))
 			}
 		}
 		if res.Truncated && len(rep.Viol) == 0 {
@@ -520,6 +502,27 @@ func runProperty(id, tier string, seed int, reg Registry, only string, workers i
 	}
 	fmt.Printf("property=%s tier=%s harnesses=%d paths=%d queries=%d violations=%d inconclusive=%d wall=%.1fs\n", id, tier, len(reports), tot, q, violations, len(inconclusive), time.Since(t0).Seconds())
 	return exit
+}
+
+type verdictCounts struct{ paths, unsat, trivial, sat, unknown, aborted int }
+
+func (v *verdictCounts) add(p *symex.PathResult) {
+	v.paths++
+	if strings.HasPrefix(p.Outcome, "abort:") {
+		v.aborted++
+	}
+	for _, a := range p.Asserts {
+		switch a.Verdict {
+		case "unsat":
+			v.unsat++
+		case "trivial":
+			v.trivial++
+		case "sat":
+			v.sat++
+		default:
+			v.unknown++
+		}
+	}
 }
 
 func firstLine(s string) string {
